@@ -154,6 +154,29 @@ def check_one(ctx, q, data, info, classify=True):
         ctx.count("second-pass-checked")
     except Exception as e:
         problems.append((f"second-pass-raised:{type(e).__name__}", f"simplifying the simplifier's own output raised {type(e).__name__}: {str(e)[:120]}"))
+    # the same query OBJECT simplified twice, and a query in which one sub-query object sits at two places (a DAG: what client code
+    # that keeps a base stream in a variable and uses it twice hands over): the meaning is the meaning of the tree it stands for
+    if ctx.rnd.random() < 0.25:
+        try:
+            arg = astx.clone(q)
+            simplify_chained_calls().visit(arg)
+            again = simplify_chained_calls().visit(arg)
+            after3 = [evaluate(again, d, GLOB) for d in data]
+            for di, (b, a) in enumerate(zip(before, after3)):
+                if b[0] == "ok" and a != b:
+                    problems.append((f"mismatch-when-the-same-object-is-simplified-twice:{a[0]}", f"dataset#{di}: before={str(b)[:160]} second simplification of the same input object={str(a)[:160]}"))
+                    break
+            shared = astx.clone(q)
+            pair = ast.Tuple(elts=[shared, shared], ctx=ast.Load())
+            out4 = simplify_chained_calls().visit(pair)
+            after4 = [evaluate(out4, d, GLOB) for d in data]
+            for di, (b, a) in enumerate(zip(before, after4)):
+                if b[0] == "ok" and not (a[0] == "ok" and a[1] == ("T", b[1], b[1])) and a != ("ok", (b[1], b[1])):
+                    problems.append((f"mismatch-for-a-sub-query-object-at-two-places:{a[0]}", f"dataset#{di}: the query evaluates to {str(b)[:120]}, (q, q) with q one object simplifies to something that gives {str(a)[:160]}"))
+                    break
+            ctx.count("dag-and-twice-simplified-inputs")
+        except Exception as e:
+            ctx.count("skipped:dag-input-raised:" + type(e).__name__)
     changed = astx.dump_fields(out) != src_in
     ok_nonempty = any(b[0] == "ok" for b in before[1:])
     ctx.case(src_in, nontrivial=changed and ok_nonempty)
@@ -205,6 +228,8 @@ def run_case(ctx, q, data, info):
 
 
 DIRECTED = [
+    # dictionary keys that python takes for ONE key (1 / True / 1.0, 0 / False): the last value written wins, whatever it is read with
+    ("Select(EventDataset(), lambda e: ({1: e.x, True: e.y}[1], {0: e.x, False: e.y, 0.0: e.met}[0], {True: e.x, 1: e.y}[True], {1: e.x, 2: e.y}[True], {'a': e.x, 'b': e.y}['a']))", "equal-keys"),
     # displays with a spread element, indexed from either end, with zero under a minus sign, with a truth value
     ("Select(EventDataset(), lambda e: ((e.met, *(e.x, e.y))[-2], (e.met, *(e.x, e.y))[0], (*(e.x, e.y), e.met)[-1], [e.met, *[e.x, e.y], e.nv][-3]))", "spread-display"),
     ("Select(EventDataset(), lambda e: ((e.x, e.y)[-0], (e.x, e.y)[-False], [e.x, e.y][True], (lambda t, i: t[-i])((e.x, e.y), 0)))", "minus-zero-index"),
